@@ -158,7 +158,8 @@ func errString(err error) string {
 	switch {
 	case err == nil:
 		return ""
-	case errors.Is(err, storedefs.ErrNoMatchingCmd):
+	case errors.Is(err, storedefs.ErrNoMatchingCmd), err.Error() == storedefs.ErrNoMatchingCmd.Error():
+		// (across the daemon's RPC boundary only the message survives)
 		return "nomatch"
 	default:
 		return err.Error()
